@@ -92,7 +92,8 @@ def specs_for(tier, seed):
                         sc = [{"kind": "newOrder", "nth": 1 + rng.randrange(2), "fault": "acme:accountDoesNotExist:400", "repeat": 1}]
                     if v.get("lost"):
                         sc = [{"kind": rng.choice(["newOrder", "newAccount", "authz"]), "nth": 1, "fault": "drop_after", "repeat": 1}]
-                    endpoints[eps[e]] = {"ca": {"delay": delay, "seed": dseed}, "script": sc}
+                    # every other scenario: a CA whose account objects carry no `orders` member (optional; Boulder omits it)
+                    endpoints[eps[e]] = {"ca": {"delay": delay, "seed": dseed, "orders_field": len(specs) % 2 == 1}, "script": sc}
                 accounts = [{"name": accs[a], "contacts": [{"mailto": "%s@example.org" % accs[a]}]} for a in used_a]
                 steps = [("run", {"attempts": 1, "env": {"TOKIO_WORKER_THREADS": str(workers)}})]
                 if v.get("forget"):
@@ -104,7 +105,7 @@ def specs_for(tier, seed):
                     steps.append(("call", edit))
                     steps.append(("run", {"attempts": 1, "env": {"TOKIO_WORKER_THREADS": str(workers)}}))
                 sp = dict(tag="C12/s%03d" % len(specs), certs=certs, endpoints=endpoints, accounts=accounts, steps=steps, timeout=90,
-                          meta={"family": vname, "pattern": pat, "workers": workers, "delay_seed": dseed})
+                          meta={"family": vname, "pattern": pat, "workers": workers, "delay_seed": dseed, "orders_member": len(specs) % 2 == 1})
                 specs.append(flowcheck.prepare(sp))
     return specs
 
